@@ -78,7 +78,7 @@ class Ctx:
         self.level = level
         self.rule = rule
         self.t0 = time.time()
-        self.budget = float(os.environ.get("VERIF_BUDGET_S", 0)) or (200.0 if tier == "quick" else 2400.0)
+        self.budget = float(os.environ.get("VERIF_BUDGET_S", 0)) or (420.0 if tier == "quick" else 2400.0)
         self.procs = int(os.environ.get("VERIF_PROCS", 0)) or min(16, os.cpu_count() or 1)
         self.n = 0
         self.nt = 0
